@@ -658,8 +658,8 @@ def model_part(ctx: vlib.Ctx):
     from jsonschema import Draft202012Validator
     from harness.props import c06_model as M
     import py2gallina
-    br = ctx.theorems("props/C06_schema.vo", ["C06_sound_partial", "C06_required_iff_no_default", "C06_satisfiable",
-                                              "C06_flag_refuted", "C06_intkey_refuted", "C06_shared_defs_refuted",
+    br = ctx.theorems("props/C06_schema.vo", ["C06_sound_partial", "C06_tz_pattern", "C06_required_iff_no_default", "C06_satisfiable",
+                                              "C06_sound_full_refuted", "C06_flag_refuted", "C06_intkey_refuted", "C06_shared_defs_refuted",
                                               "C06_set_collision_refuted", "C06_init_false_refuted"], kernels=["K6"])
     r = ctx.rng
     want = ctx.budget(150, 1500)
